@@ -59,6 +59,7 @@ def main():
     except GenError as e:
         run.proof_broken.append('translator: ' + str(e))
     run.check_proofs(deps=['theories/Proofs/FloatConvProofs.vo'])
+    NCORPUS = run_corpus(run, PID, src)          # minimised past failures first
     chibi = os.path.join(src, 'chibicc')
     evals = 0; nontriv = 0; dist = {}; samples = []
     def count(k, n=1): dist[k] = dist.get(k, 0) + n
